@@ -1,6 +1,9 @@
 """Small helpers shared by property modules (no Hypothesis, no localcider import at module level)."""
 import itertools
+import os
 import random
+import zlib
+from collections import Counter
 
 from . import env, ref
 
@@ -44,9 +47,28 @@ def arrange(P, M, Z, rnd):
     return "".join(pat)
 
 
+ROUTE_ON = False          # switched on by the drivers of generated (non-exhaustive) parts and by their replays
+ROUTES = Counter()
+_STD = frozenset("ACDEFGHIKLMNPQRSTVWY")
+ROUTE_EVERY = 8
+
+
 def sp(seq):
-    """SequenceParameters(seq) from the tree under test."""
-    return env.SP()(seq)
+    """SequenceParameters for `seq` from the tree under test.  In generated (non-exhaustive) parts one clean upper-case word in
+    ROUTE_EVERY (a deterministic function of the word, so replays agree) is handed over through the constructor's other
+    argument, SeqObj=, as a backend Sequence built from the lower-case or mixed-case spelling of the same word: the result
+    must be the same object as far as every property is concerned."""
+    SPc = env.SP()
+    if ROUTE_ON and type(seq) is str and seq and _STD.issuperset(seq):
+        forced = os.environ.get("VERIF_ROUTE", "")
+        r = zlib.crc32(seq.encode()) % (2 * ROUTE_EVERY)
+        if forced == "seqobj" or (forced == "" and r < 2):
+            from localcider.backend.sequence import Sequence
+            text = seq.lower() if r % 2 == 0 else "".join(c.lower() if i % 2 else c for i, c in enumerate(seq))
+            ROUTES["SeqObj=Sequence(lower-case text)" if r % 2 == 0 else "SeqObj=Sequence(mixed-case text)"] += 1
+            return SPc(SeqObj=Sequence(text))
+    ROUTES["string"] += 1
+    return SPc(seq)
 
 
 def exc_name(fn, *a, **k):
@@ -114,3 +136,22 @@ def arrange_blocky(P, M, Z, rnd):
     e = Z - s - m
     a, b = ("+" * P, "-" * M) if rnd.random() < 0.5 else ("-" * M, "+" * P)
     return "0" * s + a + "0" * m + b + "0" * e
+
+
+def pasted(seq, rnd):
+    """A documented alternative spelling of the same sequence as it arrives from a paste: lower case and/or the whitespace the
+    constructor strips (trailing newline, blocks of ten, wrapped lines, tabs, leading blanks)."""
+    k = rnd.randrange(7)
+    if k == 0:
+        return seq + "\n"
+    if k == 1:
+        return " ".join(seq[i:i + 10] for i in range(0, len(seq), 10))
+    if k == 2:
+        return "\n".join(seq[i:i + 60] for i in range(0, len(seq), 60)) + "\n"
+    if k == 3:
+        return "  " + seq
+    if k == 4:
+        return seq[:len(seq) // 2] + "\t" + seq[len(seq) // 2:]
+    if k == 5:
+        return seq.lower()
+    return "\r\n".join(seq.lower()[i:i + 7] for i in range(0, len(seq), 7))
